@@ -51,7 +51,7 @@ theorem Ty.enc_adt_zero (m : AdtMeta) (vs : Variants) (fs : List Val) (pos : Nat
 
 theorem Ty.blocks_adt_zero (m : AdtMeta) (vs : Variants) (fs : List Val) (pos : Nat) (h : m.zero = true) :
     Ty.blocks (.adt m vs) (.record fs) pos
-      = [⟨pos + pad pos (Ty.maxSizeOf (.adt m vs)), Ty.sizeOf (.adt m vs), Ty.maxSizeOf (.adt m vs)⟩] := by
+      = [⟨pos + pad pos (Ty.maxSizeOf (.adt m vs)), (Ty.toMem (.adt m vs) (.record fs)).length, Ty.maxSizeOf (.adt m vs)⟩] := by
   cases vs with
   | nil => simp [Ty.blocks, h]
   | cons n f r => cases r <;> simp [Ty.blocks, h]
